@@ -69,6 +69,12 @@ theorem rc_U_sep (b : Str) (rest : List Str) (fs : FS) (hb : b ≠ []) :
     runChecks checks "-U".toList (b :: rest) fs = .next true (apply .undef b fs) := by
   simp [runChecks, checks, findPrefix, hb]
 
+/-- a bare option name as the last argument does nothing (commit 0f74657) -/
+theorem rc_last_bare (n : Str) (fs : FS)
+    (h : n = "-I".toList ∨ n = "-isystem".toList ∨ n = "-D".toList ∨ n = "-U".toList ∨ n = "-std=".toList) :
+    runChecks checks n [] fs = .next false fs := by
+  rcases h with h | h | h | h | h <;> subst h <;> simp [runChecks, checks, findPrefix]
+
 theorem rc_I_joined {a v : Str} (rest : List Str) (fs : FS) (h : Spec.form "-I".toList a = .joined v) :
     runChecks checks a rest fs = .next false (apply .inc v fs) := by
   obtain ⟨hne, hp, hv⟩ := form_joined h
@@ -222,25 +228,41 @@ theorem loop_next_true {a b : Str} {rest : List Str} {fs fs' : FS} (h : runCheck
     loop (a :: b :: rest) fs = loop rest fs' := by
   simp [loop, h]
 
+/-- GCC's reading ignores a bare option name as the last argument (the driver reports an error) -/
+theorem gcc_last_bare (n : Str) (o : Opts)
+    (h : n = "-I".toList ∨ n = "-isystem".toList ∨ n = "-D".toList ∨ n = "-U".toList ∨ n = "-std=".toList) :
+    gcc [n] o = o := by
+  rcases h with h | h | h | h | h <;> subst h <;> simp [gcc, form, impliedDefine]
+
 theorem loop_eq_gcc (args : List Str) (h : clean args = true) (o : Opts) :
-    loop args o.toRaw = some (gcc args o).toRaw := by
+    loop args o.toRaw = (gcc args o).toRaw := by
   fun_induction clean args generalizing o
   case case1 => simp [loop, gcc]
   case case2 a v hI =>
     rw [loop_next_false (rc_I_joined [] _ hI), apply_inc]; simp only [loop, gcc, hI]
-  case case3 => simp at h
+  case case3 a hI =>
+    have ha := form_sep hI; subst ha
+    rw [loop_next_false (rc_last_bare _ _ (by simp)), gcc_last_bare _ _ (by simp)]; simp only [loop]
   case case4 a h1 v hS =>
     rw [loop_next_false (rc_isystem_joined [] _ h1 hS), apply_sysinc]; simp only [loop, gcc, h1, hS]
-  case case5 => simp at h
+  case case5 a h1 hS =>
+    have ha := form_sep hS; subst ha
+    rw [loop_next_false (rc_last_bare _ _ (by simp)), gcc_last_bare _ _ (by simp)]; simp only [loop]
   case case6 a h1 h2 v hD =>
     rw [loop_next_false (rc_D_joined [] _ h1 h2 hD), apply_define]; simp only [loop, gcc, h1, h2, hD]
-  case case7 => simp at h
+  case case7 a h1 h2 hD =>
+    have ha := form_sep hD; subst ha
+    rw [loop_next_false (rc_last_bare _ _ (by simp)), gcc_last_bare _ _ (by simp)]; simp only [loop]
   case case8 a h1 h2 h3 v hU =>
     rw [loop_next_false (rc_U_joined [] _ h1 h2 h3 hU), apply_undef]; simp only [loop, gcc, h1, h2, h3, hU]
-  case case9 => simp at h
+  case case9 a h1 h2 h3 hU =>
+    have ha := form_sep hU; subst ha
+    rw [loop_next_false (rc_last_bare _ _ (by simp)), gcc_last_bare _ _ (by simp)]; simp only [loop]
   case case10 a h1 h2 h3 h4 v hT =>
     rw [loop_next_false (rc_std_joined [] _ h1 h2 h3 h4 hT), apply_std]; simp only [loop, gcc, h1, h2, h3, h4, hT]
-  case case11 => simp at h
+  case case11 a h1 h2 h3 h4 hT =>
+    have ha := form_sep hT; subst ha
+    rw [loop_next_false (rc_last_bare _ _ (by simp)), gcc_last_bare _ _ (by simp)]; simp only [loop]
   case case12 a h1 h2 h3 h4 h5 d hd =>
     rw [loop_next_false (rc_implied [] _ hd), implied_toRaw]; simp only [loop, gcc, h1, h2, h3, h4, h5, hd]
   case case13 a h1 h2 h3 h4 h5 h6 =>
@@ -656,5 +678,54 @@ theorem gcc_render (l : List Opt) (h : ∀ x ∈ l, x.wf = true) (o : Opts) : gc
       obtain ⟨f1, f2, f3, f4, f5⟩ := notOption_forms hx.1.1
       simp only [render, Opt.render, List.cons_append, List.nil_append, meaning]
       rw [gcc_other _ _ _ f1 f2 f3 f4 f5 hx.1.2 hx.2, ih hr]
+
+/-! ### the loop before commit 0f74657 -/
+
+theorem before_runChecks (cs : List (List Str × Kind)) (a : Str) (rest : List Str) (fs : FS) :
+    Before0f74657.runChecks cs a rest fs = .oob ∨
+    ∃ c f, Before0f74657.runChecks cs a rest fs = .next c f ∧ runChecks cs a rest fs = .next c f := by
+  induction cs with
+  | nil => exact Or.inr ⟨false, fs, rfl, rfl⟩
+  | cons x cs ih =>
+    obtain ⟨names, k⟩ := x
+    simp only [Before0f74657.runChecks, runChecks]
+    cases findPrefix names a with
+    | none => exact ih
+    | some n =>
+      by_cases hl : a.length = n
+      · simp only [hl, if_true]
+        cases rest with
+        | nil =>
+          by_cases hc : cs.isEmpty = true
+          · exact Or.inr ⟨false, fs, by simp [hc], rfl⟩
+          · exact Or.inl (by simp [hc])
+        | cons b r =>
+          by_cases hb : b.isEmpty = true
+          · exact Or.inr ⟨true, fs, by simp [hb], by simp [hb]⟩
+          · exact Or.inr ⟨true, apply k b fs, by simp [hb], by simp [hb]⟩
+      · exact Or.inr ⟨false, apply k (a.drop n) fs, by simp [hl], by simp [hl]⟩
+
+/-- the repair 0f74657 changes nothing where the old code had defined behaviour -/
+theorem before_loop_defined (args : List Str) (fs r : FS) (h : Before0f74657.loop args fs = some r) :
+    loop args fs = r := by
+  fun_induction Before0f74657.loop args fs
+  case case1 => simpa [loop] using h
+  case case2 => simp at h
+  case case3 arg rest fs fs' hx ih =>
+    rcases before_runChecks checks arg rest fs with ho | ⟨c, f, h1, h2⟩
+    · rw [ho] at hx; exact Before0f74657.Out.noConfusion hx
+    · rw [h1] at hx; injection hx with hc hf; subst hc; subst hf
+      rw [loop_next_false h2]; exact ih h
+  case case4 arg fs fs' hx =>
+    rcases before_runChecks checks arg [] fs with ho | ⟨c, f, h1, h2⟩
+    · rw [ho] at hx; exact Before0f74657.Out.noConfusion hx
+    · rw [h1] at hx; injection hx with hc hf; subst hc; subst hf
+      simp only [Option.some.injEq] at h
+      simp [loop, h2, h]
+  case case5 arg fs fs' b r' hx ih =>
+    rcases before_runChecks checks arg (b :: r') fs with ho | ⟨c, f, h1, h2⟩
+    · rw [ho] at hx; exact Before0f74657.Out.noConfusion hx
+    · rw [h1] at hx; injection hx with hc hf; subst hc; subst hf
+      rw [loop_next_true h2]; exact ih h
 
 end Cppcheck.GccArgs
